@@ -88,7 +88,8 @@ def run(prop=None, root=None, jobs=None):
 
 def main(argv):
     prop = argv[0].upper() if argv else None
-    res = run(prop)
+    only = argv[1] if len(argv) > 1 else None
+    res = run(prop, only)
     bad = 0
     for (kind, p, name, status, detail, dt) in res:
         flag = '' if status in ('ok', 'skipped') else '  <<<<'
